@@ -541,8 +541,29 @@ def plan_c13(doc: dict, man: dict, args: dict) -> list:
     return acts
 
 
+def plan_c10(doc, man, args):
+    a = dict(args, per_model=12)
+    a["import"] = False
+    out = plan_models(doc, man, a)
+    a["calls_per_op"] = 0
+    out += [x for x in plan_ops(doc, man, a) if x["a"] == "endpoint_info"]
+    return out
+
+
+def plan_c15(doc, man, args):
+    acts = []
+    for ci in args.get("cases") or []:
+        for order in ("X", "Y"):
+            ent = (man.get("refs") or {}).get(f"/components/schemas/{order}{ci}")
+            if not ent or ent["kind"] != "ModelProperty" or ent["cls"] not in man["models"]:
+                continue
+            for probe in args.get("probes") or []:
+                acts.append({"a": "roundtrip", "cls": ent["cls"], "value": {"p": probe, "only_b": 5}, "x": {"case": ci, "order": order, "ref": f"/components/schemas/{order}{ci}"}})
+    return acts
+
+
 def plan_import(doc, man, args):
     return [{"a": "import_all"}]
 
 
-PLANS = {"models": plan_models, "ops": plan_ops, "import": plan_import, "models_given": plan_models_given, "defaults": plan_defaults, "c05": plan_c05, "c14": plan_c14, "c13": plan_c13}
+PLANS = {"models": plan_models, "ops": plan_ops, "import": plan_import, "models_given": plan_models_given, "defaults": plan_defaults, "c05": plan_c05, "c14": plan_c14, "c13": plan_c13, "c10": plan_c10, "c15": plan_c15}
